@@ -10,11 +10,11 @@ directly over a wide range of energy ratios.
 """
 import numpy as np
 
-from .. import bus, cover, gen, mctrace
+from .. import bus, cover, gen, mctrace, ref
 
 LEVEL = 'exploration'
 JOBS = {'quick': 4, 'thorough': 16}
-REQUIRED_MONITORS = ('trace_checked', 'metropolis_direct', 'acceptance_draw_observed')
+REQUIRED_MONITORS = ('trace_checked', 'metropolis_direct', 'acceptance_draw_observed', 'ring_moves_checked')
 REQUIRED_CLASSES = ('types:(0,)', 'types:(1,)', 'types:(2,)', 'types:(0, 1, 2)', 'types:(0, 1)', 'budget:1', 'budget:2',
                     'budget:>=100', 'restraints:none', 'restraints:partial', 'restraints:all-fixed', 'worse-accepted',
                     'worse-rejected', 'improved', 'units:small', 'units:large', 'proposal:non-finite-measure', 'proposal:translation', 'proposal:rotation', 'proposal:atom-move')
@@ -171,6 +171,19 @@ def run_run(ctx, case):
     for mech, msg in problems:
         ctx.violation(mech, msg, witness=w)
     # single-atom moves of the trace keep the tabulated bonds of an acyclic molecule
+    if cyclic and nm > 1:
+        # rings: every bond of the traversal tree rooted at the moved atom is exact, so the bonds that have their
+        # tabulated length must connect the whole molecule (whichever atom was moved)
+        table = {(min(a, b), max(a, b)): l for a, lst in bonds.items() for b, l in lst}
+        for ev in tracer.events:
+            if ev[0] == 'move' and np.all(np.isfinite(ev[2])):
+                out = ev[2]
+                exact = [e for e, l in table.items() if abs(np.linalg.norm(out[e[0]] - out[e[1]]) - l) <= 1e-9 * l]
+                ctx.monitor('ring_moves_checked')
+                if not ref.connected(nm, exact):
+                    ctx.violation('atom-move-not-bond-preserving:ring', f'after a single-atom move only {len(exact)} of {len(table)} bonds have their '
+                                  'tabulated length and they do not connect the molecule', witness=dict(w, edges=edges))
+                    break
     if not cyclic and nm > 1:
         table = {(min(a, b), max(a, b)): l for a, lst in bonds.items() for b, l in lst}
         for ev in tracer.events:
